@@ -32,6 +32,19 @@ theorem getLast?_max {l : List Int} (hp : l.Pairwise (· < ·)) {m : Int} (hm : 
       · have := hp.1 m hmm; omega
       · exact ih hp.2 hm u h
 
+theorem head?_min {l : List Int} (hp : l.Pairwise (· < ·)) {m : Int} (hm : l.head? = some m) :
+    ∀ u ∈ l, m ≤ u := by
+  cases l with
+  | nil => cases hm
+  | cons a rest =>
+    simp only [List.head?_cons, Option.some.injEq] at hm
+    subst hm
+    intro u hu
+    rw [List.pairwise_cons] at hp
+    rcases List.mem_cons.mp hu with h | h
+    · omega
+    · have := hp.1 u h; omega
+
 theorem getLast?_append_of_ne_nil (a : List Int) {b : List Int} (h : b ≠ []) :
     (a ++ b).getLast? = b.getLast? := by
   rw [List.getLast?_append]
@@ -182,29 +195,68 @@ theorem latest_none_iff {z : Zone} (hs : sorted z = true) (n : Int) :
       have : a ∈ fromLocal z n := by rw [hl]; exact List.mem_cons_self
       exact absurd ((mem_fromLocal hs n a).mp this) (h a)
 
+/-- `earliest()` is an instant reading `n`, and no earlier instant reads `n` -/
+theorem earliest_spec {z : Zone} (hs : sorted z = true) {n u : Int} (h : earliest? z n = some u) :
+    naive z u = n ∧ ∀ u', naive z u' = n → u ≤ u' := by
+  unfold earliest? at h
+  refine ⟨(mem_fromLocal hs n u).mp (List.mem_of_head? h), ?_⟩
+  intro u' hu'
+  exact head?_min (fromLocal_pairwise hs n) h u' ((mem_fromLocal hs n u').mpr hu')
+
+/-- `earliest()` and `latest()` answer `None` for the same local times -/
+theorem earliest?_eq_none_iff (z : Zone) (n : Int) : earliest? z n = none ↔ latest? z n = none := by
+  unfold earliest? latest?
+  rw [List.head?_eq_none_iff, List.getLast?_eq_none_iff]
+
+theorem earliest?_of_singleton {z : Zone} {n u : Int} (h : fromLocal z n = [u]) : earliest? z n = some u := by
+  unfold earliest?; rw [h]; rfl
+
+theorem latest?_of_singleton {z : Zone} {n u : Int} (h : fromLocal z n = [u]) : latest? z n = some u := by
+  unfold latest?; rw [h]; rfl
+
 /-! ### the minute loop and the walk back of `datetime` -/
 
-theorem minuteLoop_of_some {z : Zone} {n u : Int} (h : latest? z n = some u) : minuteLoop z n = .ok (n, u) := by
-  unfold latest? at h
+theorem found?_self (z : Zone) (n : Int) : found? z n n = latest? z n := by
+  unfold found?; rw [if_pos rfl]
+
+theorem found?_of_ne {z : Zone} {req n : Int} (h : n ≠ req) : found? z req n = earliest? z n := by
+  unfold found?; rw [if_neg h]
+
+theorem found?_eq_none {z : Zone} {req n : Int} (h : latest? z n = none) : found? z req n = none := by
+  unfold found?
+  split
+  · exact h
+  · exact (earliest?_eq_none_iff z n).mpr h
+
+/-- whatever `found?` picks is an instant reading `n` -/
+theorem found?_mem {z : Zone} {req n u : Int} (h : found? z req n = some u) : u ∈ fromLocal z n := by
+  unfold found? at h
+  split at h
+  · exact List.mem_of_getLast? h
+  · exact List.mem_of_head? h
+
+theorem minuteLoop_of_some {z : Zone} {req n u : Int} (h : found? z req n = some u) :
+    minuteLoop z req n = .ok (n, u) := by
   rw [minuteLoop]
   split
   · rename_i u' hu'; rw [h] at hu'; cases hu'; rfl
   · rename_i hn; rw [h] at hn; cases hn
 
-theorem minuteLoop_of_none {z : Zone} {n : Int} (h : latest? z n = none) :
-    minuteLoop z n = if n + nsPerMin > instMax then .error "localize.rs:datetime no valid datetime for time zone"
-      else minuteLoop z (n + nsPerMin) := by
-  unfold latest? at h
+theorem minuteLoop_of_none {z : Zone} {req n : Int} (h : latest? z n = none) :
+    minuteLoop z req n = if n + nsPerMin > instMax then .error "localize.rs:datetime no valid datetime for time zone"
+      else minuteLoop z req (n + nsPerMin) := by
+  have h' : found? z req n = none := found?_eq_none h
   rw [minuteLoop]
   split
-  · rename_i u' hu'; rw [h] at hu'; cases hu'
+  · rename_i u' hu'; rw [h'] at hu'; cases hu'
   · rfl
 
-/-- the loop returns the first existing local time among `n, n + 1 min, …` and its latest instant -/
-theorem minuteLoop_steps {z : Zone} (k : Nat) : ∀ (n u : Int),
+/-- the loop returns the first existing local time among `n, n + 1 min, …` and the instant `found?`
+picks for it -/
+theorem minuteLoop_steps {z : Zone} {req : Int} (k : Nat) : ∀ (n u : Int),
     (∀ j : Nat, j < k → latest? z (n + j * nsPerMin) = none) →
-    latest? z (n + k * nsPerMin) = some u → n + k * nsPerMin ≤ instMax →
-    minuteLoop z n = .ok (n + k * nsPerMin, u) := by
+    found? z req (n + k * nsPerMin) = some u → n + k * nsPerMin ≤ instMax →
+    minuteLoop z req n = .ok (n + k * nsPerMin, u) := by
   induction k with
   | zero =>
     intro n u _ h _
@@ -235,19 +287,20 @@ theorem minuteLoop_steps {z : Zone} (k : Nat) : ∀ (n u : Int),
 theorem walkBack_self (z : Zone) (n dt : Int) : walkBack z n n dt = .ok dt := by
   rw [walkBack, if_neg (by omega)]
 
+/-- an existing requested time is mapped to its `latest()` instant -/
 theorem datetime_of_some {z : Zone} {n u : Int} (h : latest? z n = some u) : datetime z n = .ok u := by
   unfold datetime
-  rw [minuteLoop_of_some h]
+  rw [minuteLoop_of_some (by rw [found?_self]; exact h)]
   exact walkBack_self z n u
 
-/-- what the walk back returns, in general: the latest instant of a local time `m'` reached from
+/-- what the walk back returns, in general: the earliest instant of a local time `m'` reached from
 `m` by whole seconds through existing local times only, not below `req`; and the second before
 `m'` does not exist or is not above `req`.  No underflow for a representable `req`. -/
 theorem walkBack_spec {z : Zone} {req : Int} (hreq : instMin ≤ req) : ∀ (m u : Int),
-    (m - req) % nsPerSec = 0 → latest? z m = some u →
-    ∃ m' u', walkBack z req m u = .ok u' ∧ latest? z m' = some u' ∧ m' ≤ m ∧ (m' = m ∨ req ≤ m') ∧
-      (m - m') % nsPerSec = 0 ∧ (∀ x, m' ≤ x → x ≤ m → (m - x) % nsPerSec = 0 → latest? z x ≠ none) ∧
-      (req < m' → latest? z (m' - nsPerSec) = none) := by
+    (m - req) % nsPerSec = 0 → earliest? z m = some u →
+    ∃ m' u', walkBack z req m u = .ok u' ∧ earliest? z m' = some u' ∧ m' ≤ m ∧ (m' = m ∨ req ≤ m') ∧
+      (m - m') % nsPerSec = 0 ∧ (∀ x, m' ≤ x → x ≤ m → (m - x) % nsPerSec = 0 → earliest? z x ≠ none) ∧
+      (req < m' → earliest? z (m' - nsPerSec) = none) := by
   intro m u
   fun_induction walkBack z req m u with
   | case1 m u hgt hlow => intro hph _; exfalso; simp only [nsPerSec] at *; omega
@@ -277,16 +330,59 @@ theorem walkBack_spec {z : Zone} {req : Int} (hreq : instMin ≤ req) : ∀ (m u
     have : x = m := by omega
     subst this; rw [hl]; simp
 
-/-! ### consequences of the spacing condition, on table suffixes -/
+/-! ### consequences of the ordering / spacing condition, on table suffixes
+
+`orderedFrom` (local spans in order) is what the lemmas about gaps and monotonicity need;
+`spacedFrom` (which implies it) is only needed for "read exactly once" statements. -/
 
 theorem spacedFrom_cons {p t o t' o' : Int} {rest : List (Int × Int)} :
     spacedFrom p t o ((t', o') :: rest) = true ↔
       t' - t ≥ offNs (o - p).natAbs + offNs (o' - o).natAbs + nsPerMin ∧ spacedFrom o t' o' rest = true := by
   simp [spacedFrom]
 
-/-- no span at/after `(t, o)` contains a local time before `t + o` (local span starts increase) -/
+theorem orderedFrom_cons {p t o t' o' : Int} {rest : List (Int × Int)} :
+    orderedFrom p t o ((t', o') :: rest) = true ↔
+      (t + offNs p ≤ t' + offNs o ∧ t + offNs o ≤ t' + offNs o' ∧ (p < o → t' - t ≥ nsPerMin)) ∧
+        orderedFrom o t' o' rest = true := by
+  simp only [orderedFrom, Bool.and_eq_true, decide_eq_true_eq]
+
+/-- spaced tables have their local spans in order -/
+theorem ordered_of_spacedFrom {p t o : Int} {l : List (Int × Int)} (h : spacedFrom p t o l = true) :
+    orderedFrom p t o l = true := by
+  induction l generalizing p t o with
+  | nil => rfl
+  | cons hd rest ih =>
+    obtain ⟨t', o'⟩ := hd
+    obtain ⟨h1, h2⟩ := spacedFrom_cons.mp h
+    refine orderedFrom_cons.mpr ⟨?_, ih h2⟩
+    simp only [offNs, nsPerMin] at *
+    omega
+
+theorem spansOrdered_of_spaced {z : Zone} (h : spaced z = true) : spansOrdered z = true := by
+  unfold spaced at h
+  unfold spansOrdered
+  cases hz : z.trans with
+  | nil => rfl
+  | cons hd rest =>
+    obtain ⟨t, o⟩ := hd
+    rw [hz] at h
+    exact ordered_of_spacedFrom h
+
+theorem virt_ordered (z : Zone) (n : Int) (ho : spansOrdered z = true) :
+    orderedFrom z.init (virt z n) z.init z.trans = true := by
+  unfold virt spansOrdered at *
+  cases hz : z.trans with
+  | nil => simp [orderedFrom]
+  | cons hd rest =>
+    obtain ⟨t, o⟩ := hd
+    rw [hz] at ho
+    refine orderedFrom_cons.mpr ⟨?_, ho⟩
+    simp only [offNs, nsPerMin]
+    omega
+
+/-- no span at/after `(t, o)` contains a local time before `t + o` (local span starts do not decrease) -/
 theorem none_before {p t o : Int} {l : List (Int × Int)} (hs : sortedFrom t l = true)
-    (hp : spacedFrom p t o l = true) {m : Int} (hm : m < t + offNs o) : fromLocalFrom t o l m = [] := by
+    (hp : orderedFrom p t o l = true) {m : Int} (hm : m < t + offNs o) : fromLocalFrom t o l m = [] := by
   induction l generalizing p t o with
   | nil =>
     simp only [fromLocalFrom]
@@ -294,28 +390,27 @@ theorem none_before {p t o : Int} {l : List (Int × Int)} (hs : sortedFrom t l =
   | cons hd rest ih =>
     obtain ⟨t', o'⟩ := hd
     obtain ⟨h1, h2⟩ := sortedFrom_cons.mp hs
-    obtain ⟨h3, h4⟩ := spacedFrom_cons.mp hp
+    obtain ⟨h3, h4⟩ := orderedFrom_cons.mp hp
     simp only [fromLocalFrom]
     rw [if_neg (by omega), List.nil_append]
     apply ih h2 h4
-    simp only [offNs, nsPerMin] at *
     omega
 
 /-- the last span starts (locally) after every other span -/
 theorem start_le_lastLocalFrom {p t o : Int} {l : List (Int × Int)} (hs : sortedFrom t l = true)
-    (hp : spacedFrom p t o l = true) : t + offNs o ≤ lastLocalFrom t o l := by
+    (hp : orderedFrom p t o l = true) : t + offNs o ≤ lastLocalFrom t o l := by
   induction l generalizing p t o with
   | nil => simp [lastLocalFrom]
   | cons hd rest ih =>
     obtain ⟨t', o'⟩ := hd
     obtain ⟨h1, h2⟩ := sortedFrom_cons.mp hs
-    obtain ⟨h3, h4⟩ := spacedFrom_cons.mp hp
+    obtain ⟨h3, h4⟩ := orderedFrom_cons.mp hp
     simp only [lastLocalFrom]
     have := ih h2 h4
-    simp only [offNs, nsPerMin] at *
     omega
 
-/-- the first minute of a span is unambiguous local time: `t + o + r` is read only at `t + r` -/
+/-- the first minute of a span is unambiguous local time in a SPACED table: `t + o + r` is read only
+at `t + r` -/
 theorem first_minute {p t o : Int} {l : List (Int × Int)} (hs : sortedFrom t l = true)
     (hp : spacedFrom p t o l = true) {r : Int} (h0 : 0 ≤ r) (h1 : r < nsPerMin) :
     fromLocalFrom t o l (t + offNs o + r) = [t + r] := by
@@ -330,7 +425,7 @@ theorem first_minute {p t o : Int} {l : List (Int × Int)} (hs : sortedFrom t l 
     obtain ⟨h4, h5⟩ := spacedFrom_cons.mp hp
     simp only [fromLocalFrom]
     have hn : fromLocalFrom t' o' rest (t + offNs o + r) = [] := by
-      apply none_before h3 h5
+      apply none_before h3 (ordered_of_spacedFrom h5)
       simp only [offNs, nsPerMin] at *
       omega
     rw [hn, List.append_nil, if_pos]
@@ -338,15 +433,36 @@ theorem first_minute {p t o : Int} {l : List (Int × Int)} (hs : sortedFrom t l 
     · simp only [offNs, nsPerMin] at *
       omega
 
+/-- the first minute of a span that starts with a forward jump, in an ORDERED table: `t + o + r` is
+read FIRST at `t + r` (it may be read again after a fold that follows directly) -/
+theorem first_minute_head {p t o : Int} {l : List (Int × Int)} (_hs : sortedFrom t l = true)
+    (hp : orderedFrom p t o l = true) (hj : p < o) {r : Int} (h0 : 0 ≤ r) (h1 : r < nsPerMin) :
+    (fromLocalFrom t o l (t + offNs o + r)).head? = some (t + r) := by
+  cases l with
+  | nil =>
+    simp only [fromLocalFrom]
+    rw [if_pos (by omega)]
+    simp only [List.head?_cons, Option.some.injEq]
+    omega
+  | cons hd rest =>
+    obtain ⟨t', o'⟩ := hd
+    obtain ⟨h4, _⟩ := orderedFrom_cons.mp hp
+    have h5 := h4.2.2 hj
+    simp only [fromLocalFrom]
+    rw [if_pos (by omega)]
+    simp only [List.cons_append, List.head?_cons, Option.some.injEq]
+    omega
+
 /-- **gap structure.**  A local time `n` at/after the start of span `(t, o)` that no span
 contains is skipped by a forward jump `(T, a, b)`: `a ≤ n < b`, everything in `[n, b)` is skipped
-too, and the minute from `b` on is read exactly once, at `T + r`. -/
+too, and the minute from `b` on is read first at `T + r` — in a spaced table only there. -/
 theorem gap_structure {p t o : Int} {l : List (Int × Int)} (hs : sortedFrom t l = true)
-    (hp : spacedFrom p t o l = true) {n : Int} (hn : t + offNs o ≤ n)
+    (hp : orderedFrom p t o l = true) {n : Int} (hn : t + offNs o ≤ n)
     (he : fromLocalFrom t o l n = []) :
     ∃ T a b, gapOfFrom o l n = some (T, a, b) ∧ a ≤ n ∧ n < b ∧ b ≤ lastLocalFrom t o l ∧
       (∀ m, n ≤ m → m < b → fromLocalFrom t o l m = []) ∧
-      (∀ r, 0 ≤ r → r < nsPerMin → fromLocalFrom t o l (b + r) = [T + r]) := by
+      (∀ r, 0 ≤ r → r < nsPerMin → (fromLocalFrom t o l (b + r)).head? = some (T + r)) ∧
+      (spacedFrom p t o l = true → ∀ r, 0 ≤ r → r < nsPerMin → fromLocalFrom t o l (b + r) = [T + r]) := by
   induction l generalizing p t o with
   | nil =>
     simp only [fromLocalFrom] at he
@@ -355,7 +471,7 @@ theorem gap_structure {p t o : Int} {l : List (Int × Int)} (hs : sortedFrom t l
   | cons hd rest ih =>
     obtain ⟨t', o'⟩ := hd
     obtain ⟨h1, h2⟩ := sortedFrom_cons.mp hs
-    obtain ⟨h3, h4⟩ := spacedFrom_cons.mp hp
+    obtain ⟨h3, h4⟩ := orderedFrom_cons.mp hp
     simp only [fromLocalFrom, List.append_eq_nil_iff] at he
     obtain ⟨he1, he2⟩ := he
     have hge : t' + offNs o ≤ n := by
@@ -364,7 +480,8 @@ theorem gap_structure {p t o : Int} {l : List (Int × Int)} (hs : sortedFrom t l
       · omega
     by_cases hgap : n < t' + offNs o'
     · -- the gap is at this transition
-      refine ⟨t', t' + offNs o, t' + offNs o', ?_, hge, hgap, ?_, ?_, ?_⟩
+      have hj : o < o' := by simp only [offNs] at *; omega
+      refine ⟨t', t' + offNs o, t' + offNs o', ?_, hge, hgap, ?_, ?_, ?_, ?_⟩
       · simp only [gapOfFrom]
         rw [if_pos ⟨hge, hgap⟩]
       · simp only [lastLocalFrom]
@@ -376,10 +493,15 @@ theorem gap_structure {p t o : Int} {l : List (Int × Int)} (hs : sortedFrom t l
       · intro r hr0 hr1
         simp only [fromLocalFrom]
         rw [if_neg (by omega), List.nil_append]
-        exact first_minute h2 h4 hr0 hr1
+        exact first_minute_head h2 h4 hj hr0 hr1
+      · intro hsp r hr0 hr1
+        obtain ⟨_, h4'⟩ := spacedFrom_cons.mp hsp
+        simp only [fromLocalFrom]
+        rw [if_neg (by omega), List.nil_append]
+        exact first_minute h2 h4' hr0 hr1
     · -- later
-      obtain ⟨T, a, b, g1, g2, g3, g4, g5, g6⟩ := ih h2 h4 (by omega) he2
-      refine ⟨T, a, b, ?_, g2, g3, ?_, ?_, ?_⟩
+      obtain ⟨T, a, b, g1, g2, g3, g4, g5, g6, g7⟩ := ih h2 h4 (by omega) he2
+      refine ⟨T, a, b, ?_, g2, g3, ?_, ?_, ?_, ?_⟩
       · simp only [gapOfFrom]
         rw [if_neg (by omega)]
         exact g1
@@ -392,10 +514,15 @@ theorem gap_structure {p t o : Int} {l : List (Int × Int)} (hs : sortedFrom t l
         simp only [fromLocalFrom]
         rw [if_neg (by omega), List.nil_append]
         exact g6 r hr0 hr1
+      · intro hsp r hr0 hr1
+        obtain ⟨_, h4'⟩ := spacedFrom_cons.mp hsp
+        simp only [fromLocalFrom]
+        rw [if_neg (by omega), List.nil_append]
+        exact g7 h4' r hr0 hr1
 
 /-- `latest()` is strictly increasing on existing local times -/
 theorem latestFrom_strictMono {p t o : Int} {l : List (Int × Int)} (hs : sortedFrom t l = true)
-    (hp : spacedFrom p t o l = true) {n n' u u' : Int} (hlt : n < n')
+    (hp : orderedFrom p t o l = true) {n n' u u' : Int} (hlt : n < n')
     (hu : (fromLocalFrom t o l n).getLast? = some u) (hu' : (fromLocalFrom t o l n').getLast? = some u') :
     u < u' := by
   induction l generalizing p t o with
@@ -405,7 +532,7 @@ theorem latestFrom_strictMono {p t o : Int} {l : List (Int × Int)} (hs : sorted
   | cons hd rest ih =>
     obtain ⟨t', o'⟩ := hd
     obtain ⟨h1, h2⟩ := sortedFrom_cons.mp hs
-    obtain ⟨h3, h4⟩ := spacedFrom_cons.mp hp
+    obtain ⟨h3, h4⟩ := orderedFrom_cons.mp hp
     simp only [fromLocalFrom] at hu hu'
     by_cases hr : fromLocalFrom t' o' rest n = []
     · rw [hr, List.append_nil] at hu
@@ -435,7 +562,7 @@ theorem latestFrom_strictMono {p t o : Int} {l : List (Int × Int)} (hs : sorted
           split at hu'
           · omega
           · cases hu'
-        -- then `n'` lies in the next span
+        -- then `n'` lies in the next span (local span ends do not decrease)
         cases rest with
         | nil =>
           simp only [fromLocalFrom] at hr'
@@ -443,15 +570,99 @@ theorem latestFrom_strictMono {p t o : Int} {l : List (Int × Int)} (hs : sorted
           cases hr'
         | cons hd2 rest2 =>
           obtain ⟨t'', o''⟩ := hd2
-          obtain ⟨h5, _⟩ := spacedFrom_cons.mp h4
+          obtain ⟨h5, _⟩ := orderedFrom_cons.mp h4
           simp only [fromLocalFrom, List.append_eq_nil_iff] at hr'
-          have hc : t' ≤ n' - offNs o' ∧ n' - offNs o' < t'' := by
-            simp only [offNs, nsPerMin] at *
-            omega
+          have hc : t' ≤ n' - offNs o' ∧ n' - offNs o' < t'' := by omega
           rw [if_pos hc] at hr'
           cases hr'.1
       · rw [getLast?_append_of_ne_nil _ hr'] at hu'
         exact ih h2 h4 hu hu'
+
+/-- the transition of a gap found after `t` is after `t` -/
+theorem gap_T_gt {t o : Int} {l : List (Int × Int)} (hs : sortedFrom t l = true) {n T a b : Int}
+    (hg : gapOfFrom o l n = some (T, a, b)) : t < T := by
+  induction l generalizing t o with
+  | nil => cases hg
+  | cons hd rest ih =>
+    obtain ⟨t', o'⟩ := hd
+    obtain ⟨h1, h2⟩ := sortedFrom_cons.mp hs
+    simp only [gapOfFrom] at hg
+    split at hg
+    · cases hg; exact h1
+    · have := ih h2 hg; omega
+
+/-- from `t` on the clock never shows a time before `t + o` (local span starts do not decrease) -/
+theorem naive_ge_start {p t o : Int} {l : List (Int × Int)} (hs : sortedFrom t l = true)
+    (hp : orderedFrom p t o l = true) {u : Int} (hu : t ≤ u) :
+    t + offNs o ≤ u + offNs (offsetFrom o l u) := by
+  induction l generalizing p t o with
+  | nil => simp only [offsetFrom]; omega
+  | cons hd rest ih =>
+    obtain ⟨t', o'⟩ := hd
+    obtain ⟨h1, h2⟩ := sortedFrom_cons.mp hs
+    obtain ⟨h3, h4⟩ := orderedFrom_cons.mp hp
+    simp only [offsetFrom]
+    split
+    · omega
+    · have := ih h2 h4 (by omega)
+      omega
+
+/-- from the forward jump `T` on the clock never shows a time before the landing time `b` -/
+theorem gap_above_from {p t o : Int} {l : List (Int × Int)} (hs : sortedFrom t l = true)
+    (hp : orderedFrom p t o l = true) {n T a b : Int} (hg : gapOfFrom o l n = some (T, a, b))
+    {u : Int} (hu : T ≤ u) : b ≤ u + offNs (offsetFrom o l u) := by
+  induction l generalizing p t o with
+  | nil => cases hg
+  | cons hd rest ih =>
+    obtain ⟨t', o'⟩ := hd
+    obtain ⟨h1, h2⟩ := sortedFrom_cons.mp hs
+    obtain ⟨h3, h4⟩ := orderedFrom_cons.mp hp
+    simp only [gapOfFrom] at hg
+    simp only [offsetFrom]
+    split at hg
+    · cases hg
+      rw [if_neg (by omega)]
+      exact naive_ge_start h2 h4 hu
+    · have hT := gap_T_gt h2 hg
+      rw [if_neg (by omega)]
+      exact ih h2 h4 hg
+
+/-- the local time at which a gap starts is not before the local end of any earlier span -/
+theorem gap_start_ge {p t o : Int} {l : List (Int × Int)} (hp : orderedFrom p t o l = true)
+    {n T a b : Int} (hg : gapOfFrom o l n = some (T, a, b)) : t + offNs p ≤ a := by
+  induction l generalizing p t o with
+  | nil => cases hg
+  | cons hd rest ih =>
+    obtain ⟨t', o'⟩ := hd
+    obtain ⟨h3, h4⟩ := orderedFrom_cons.mp hp
+    simp only [gapOfFrom] at hg
+    split at hg
+    · cases hg; omega
+    · have := ih h4 hg; omega
+
+/-- before the forward jump `T` the clock only shows times before the start `a` of the gap
+(local span ends do not decrease) -/
+theorem gap_below_from {p t o : Int} {l : List (Int × Int)} (hs : sortedFrom t l = true)
+    (hp : orderedFrom p t o l = true) {n T a b : Int} (hg : gapOfFrom o l n = some (T, a, b))
+    {u : Int} (hu : u < T) : u + offNs (offsetFrom o l u) < a := by
+  induction l generalizing p t o with
+  | nil => cases hg
+  | cons hd rest ih =>
+    obtain ⟨t', o'⟩ := hd
+    obtain ⟨h1, h2⟩ := sortedFrom_cons.mp hs
+    obtain ⟨h3, h4⟩ := orderedFrom_cons.mp hp
+    simp only [gapOfFrom] at hg
+    simp only [offsetFrom]
+    split at hg
+    · cases hg
+      rw [if_pos hu]
+      omega
+    · by_cases hut : u < t'
+      · rw [if_pos hut]
+        have := gap_start_ge h4 hg
+        omega
+      · rw [if_neg hut]
+        exact ih h2 h4 hg
 
 /-! ### the same facts for a zone -/
 
@@ -464,12 +675,13 @@ theorem lastLocalFrom_virt (z : Zone) (t0 : Int) (h : z.trans ≠ []) :
 
 theorem gapOf_eq (z : Zone) (n : Int) : gapOf z n = gapOfFrom z.init z.trans n := rfl
 
-/-- **gap structure of a zone** (see `gap_structure`) -/
-theorem gap_of_none {z : Zone} (hs : sorted z = true) (hp : spaced z = true) {n : Int}
+/-- **gap structure of a zone** (see `gap_structure`): sorted table with its local spans in order -/
+theorem gap_of_none {z : Zone} (hs : sorted z = true) (hp : spansOrdered z = true) {n : Int}
     (he : latest? z n = none) :
     ∃ T a b, gapOf z n = some (T, a, b) ∧ a ≤ n ∧ n < b ∧ b ≤ lastLocal z ∧
       (∀ m, n ≤ m → m < b → latest? z m = none) ∧
-      (∀ r, 0 ≤ r → r < nsPerMin → fromLocal z (b + r) = [T + r]) := by
+      (∀ r, 0 ≤ r → r < nsPerMin → earliest? z (b + r) = some (T + r)) ∧
+      (spaced z = true → ∀ r, 0 ≤ r → r < nsPerMin → fromLocal z (b + r) = [T + r]) := by
   unfold latest? at he
   rw [List.getLast?_eq_none_iff] at he
   have hne : z.trans ≠ [] := by
@@ -479,9 +691,9 @@ theorem gap_of_none {z : Zone} (hs : sorted z = true) (hp : spaced z = true) {n 
     cases he
   have hv := virt_le z n
   rw [fromLocal_eq_from z n _ hv] at he
-  obtain ⟨T, a, b, g1, g2, g3, g4, g5, g6⟩ :=
-    gap_structure (virt_sorted z n hs) (virt_spaced z n hp) (by omega) he
-  refine ⟨T, a, b, g1, g2, g3, ?_, ?_, ?_⟩
+  obtain ⟨T, a, b, g1, g2, g3, g4, g5, g6, g7⟩ :=
+    gap_structure (virt_sorted z n hs) (virt_ordered z n hp) (by omega) he
+  refine ⟨T, a, b, g1, g2, g3, ?_, ?_, ?_, ?_⟩
   · rw [lastLocalFrom_virt z _ hne] at g4; exact g4
   · intro m hm1 hm2
     unfold latest?
@@ -489,22 +701,49 @@ theorem gap_of_none {z : Zone} (hs : sorted z = true) (hp : spaced z = true) {n 
     rfl
   · intro r hr0 hr1
     have hle : n ≤ b + r := by omega
+    unfold earliest?
     rw [fromLocal_eq_from z (b + r) _ (virt_mono z hle)]
     exact g6 r hr0 hr1
+  · intro hsp r hr0 hr1
+    have hle : n ≤ b + r := by omega
+    rw [fromLocal_eq_from z (b + r) _ (virt_mono z hle)]
+    exact g7 (virt_spaced z n hsp) r hr0 hr1
+
+/-- from the forward jump `T` of a gap on, the clock never shows a time before the landing time -/
+theorem gap_above {z : Zone} (hs : sorted z = true) (hp : spansOrdered z = true) {n T a b : Int}
+    (hg : gapOf z n = some (T, a, b)) {u : Int} (hu : T ≤ u) : b ≤ naive z u := by
+  unfold naive offsetAt
+  exact gap_above_from (virt_sorted z n hs) (virt_ordered z n hp) (gapOf_eq z n ▸ hg) hu
+
+/-- before the forward jump `T` of a gap the clock only shows times before the start of the gap -/
+theorem gap_below {z : Zone} (hs : sorted z = true) (hp : spansOrdered z = true) {n T a b : Int}
+    (hg : gapOf z n = some (T, a, b)) {u : Int} (hu : u < T) : naive z u < a := by
+  unfold naive offsetAt
+  exact gap_below_from (virt_sorted z n hs) (virt_ordered z n hp) (gapOf_eq z n ▸ hg) hu
 
 /-- `latest()` is strictly increasing on existing local times -/
-theorem latest_strictMono {z : Zone} (hs : sorted z = true) (hp : spaced z = true) {n n' u u' : Int}
+theorem latest_strictMono {z : Zone} (hs : sorted z = true) (hp : spansOrdered z = true) {n n' u u' : Int}
     (hlt : n < n') (hu : latest? z n = some u) (hu' : latest? z n' = some u') : u < u' := by
   unfold latest? at hu hu'
   rw [fromLocal_eq_from z n _ (virt_le z n)] at hu
   rw [fromLocal_eq_from z n' _ (virt_mono z (Int.le_of_lt hlt))] at hu'
-  exact latestFrom_strictMono (virt_sorted z n hs) (virt_spaced z n hp) hlt hu hu'
+  exact latestFrom_strictMono (virt_sorted z n hs) (virt_ordered z n hp) hlt hu hu'
 
-theorem latest_mono {z : Zone} (hs : sorted z = true) (hp : spaced z = true) {n n' u u' : Int}
+theorem latest_mono {z : Zone} (hs : sorted z = true) (hp : spansOrdered z = true) {n n' u u' : Int}
     (hle : n ≤ n') (hu : latest? z n = some u) (hu' : latest? z n' = some u') : u ≤ u' := by
   by_cases h : n = n'
   · subst h; rw [hu] at hu'; cases hu'; omega
   · exact Int.le_of_lt (latest_strictMono hs hp (by omega) hu hu')
+
+/-- the first instant of a local time is not after the last instant of a later (or the same) one -/
+theorem earliest_le_latest {z : Zone} (hs : sorted z = true) (hp : spansOrdered z = true) {n n' u u' : Int}
+    (hle : n ≤ n') (hu : earliest? z n = some u) (hu' : latest? z n' = some u') : u ≤ u' := by
+  cases hl : latest? z n with
+  | none => rw [(earliest?_eq_none_iff z n).mpr hl] at hu; cases hu
+  | some v =>
+    have h1 := (earliest_spec hs hu).2 v (latest_spec hs hl).1
+    have h2 := latest_mono hs hp hle hl hu'
+    omega
 
 /-- a forward jump of an aligned table lands on a whole local minute -/
 theorem gap_end_aligned {p : Int} {l : List (Int × Int)} {n T a b : Int}
@@ -531,7 +770,7 @@ theorem emod_sec_lt (x : Int) : x % nsPerSec < nsPerSec := Int.emod_lt_of_pos _ 
 /-- the walk back after a gap `[.., b)` landing at `T`: from `b + x` it stops at the first second of
 the phase of `x`, `b + x mod 1 s` -/
 theorem walkBack_gap {z : Zone} {req T b : Int} (hreq : instMin ≤ req)
-    (hvalid : ∀ r, 0 ≤ r → r < nsPerMin → latest? z (b + r) = some (T + r))
+    (hvalid : ∀ r, 0 ≤ r → r < nsPerMin → earliest? z (b + r) = some (T + r))
     (hinv : ∀ m, req ≤ m → m < b → latest? z m = none) (hlt : req < b)
     {x : Int} (hx0 : 0 ≤ x) (hx1 : x < nsPerMin) (hph : (b + x - req) % nsPerSec = 0) :
     walkBack z req (b + x) (T + x) = .ok (T + x % nsPerSec) := by
@@ -543,7 +782,7 @@ theorem walkBack_gap {z : Zone} {req T b : Int} (hreq : instMin ≤ req)
       rcases h4 with h | h
       · omega
       · exact h
-    rw [hinv m' hreq' hc] at h2; cases h2
+    rw [(earliest?_eq_none_iff z m').mpr (hinv m' hreq' hc)] at h2; cases h2
   have hlt' : m' < b + nsPerSec := by
     apply Int.not_le.mp
     intro hc
@@ -557,23 +796,22 @@ theorem walkBack_gap {z : Zone} {req T b : Int} (hreq : instMin ≤ req)
   cases hv
   exact h1
 
-/-- **the loop in a gap**: the minute loop lands on `b + r`, `r = (n - b) mod 1 min`, and the walk
-back returns the instant `T + (n - b) mod 1 s`: `T` is the forward jump that skips `n`, `b` the
-local time it lands on -/
-theorem datetime_gap_core {z : Zone} (hs : sorted z = true) (hp : spaced z = true) {n : Int}
+/-- **the loop in a gap**: the minute loop lands on `b + r`, `r = (n - b) mod 1 min`, takes the
+EARLIEST instant `T + r` of it, and the walk back returns the instant `T + (n - b) mod 1 s`: `T` is
+the forward jump that skips `n`, `b` the local time it lands on.  Sorted table with its local spans
+in order; a fold may follow the gap directly. -/
+theorem datetime_gap_core {z : Zone} (hs : sorted z = true) (hp : spansOrdered z = true) {n : Int}
     (he : latest? z n = none) (hmax : lastLocal z + nsPerMin ≤ instMax) (hmin : instMin ≤ n) :
     ∃ T a b, gapOf z n = some (T, a, b) ∧ a ≤ n ∧ n < b ∧
       (∀ m, n ≤ m → m < b → latest? z m = none) ∧
-      (∀ r, 0 ≤ r → r < nsPerMin → latest? z (b + r) = some (T + r)) ∧
+      (∀ r, 0 ≤ r → r < nsPerMin → earliest? z (b + r) = some (T + r)) ∧
+      (spaced z = true → ∀ r, 0 ≤ r → r < nsPerMin → fromLocal z (b + r) = [T + r]) ∧
       datetime z n = .ok (T + (n - b) % nsPerSec) := by
-  obtain ⟨T, a, b, g1, g2, g3, g4, g5, g6⟩ := gap_of_none hs hp he
+  obtain ⟨T, a, b, g1, g2, g3, g4, g5, g6, g7⟩ := gap_of_none hs hp he
   have hr0 := emod_min_nonneg (n - b)
   have hr1 := emod_min_lt (n - b)
-  have hall : ∀ r, 0 ≤ r → r < nsPerMin → latest? z (b + r) = some (T + r) := by
-    intro r h0 h1
-    unfold latest?; rw [g6 _ h0 h1]; rfl
-  have hl := hall _ hr0 hr1
-  refine ⟨T, a, b, g1, g2, g3, g5, hall, ?_⟩
+  have hl := g6 _ hr0 hr1
+  refine ⟨T, a, b, g1, g2, g3, g5, g6, g7, ?_⟩
   -- number of steps
   have hk : ∃ k : Nat, n + k * nsPerMin = b + (n - b) % nsPerMin := by
     refine ⟨((b + (n - b) % nsPerMin - n) / nsPerMin).toNat, ?_⟩
@@ -581,7 +819,7 @@ theorem datetime_gap_core {z : Zone} (hs : sorted z = true) (hp : spaced z = tru
     · simp only [nsPerMin] at *; omega
     · simp only [nsPerMin] at *; omega
   obtain ⟨k, hk⟩ := hk
-  have hloop : minuteLoop z n = .ok (b + (n - b) % nsPerMin, T + (n - b) % nsPerMin) := by
+  have hloop : minuteLoop z n n = .ok (b + (n - b) % nsPerMin, T + (n - b) % nsPerMin) := by
     rw [← hk]
     apply minuteLoop_steps k n
     · intro j hj
@@ -589,12 +827,12 @@ theorem datetime_gap_core {z : Zone} (hs : sorted z = true) (hp : spaced z = tru
       · have : (0 : Int) ≤ j * nsPerMin := Int.mul_nonneg (Int.natCast_nonneg j) (by simp [nsPerMin])
         omega
       · simp only [nsPerMin] at *; omega
-    · rw [hk]; exact hl
+    · rw [hk, found?_of_ne (by omega)]; exact hl
     · rw [hk]; omega
   unfold datetime
   rw [hloop]
   simp only
-  rw [walkBack_gap hmin hall g5 g3 hr0 hr1 (by simp only [nsPerSec, nsPerMin] at *; omega)]
+  rw [walkBack_gap hmin g6 g5 g3 hr0 hr1 (by simp only [nsPerSec, nsPerMin] at *; omega)]
   congr 2
   simp only [nsPerSec, nsPerMin] at *
   omega
@@ -637,14 +875,26 @@ theorem datetime_induct (z : Zone) (P : Int → Prop)
   intro n
   exact key _ n (Nat.le_refl _)
 
+/-- an existing local time has something for `found?` to pick -/
+theorem found?_some_of_latest {z : Zone} {n u : Int} (req : Int) (h : latest? z n = some u) :
+    ∃ v, found? z req n = some v := by
+  cases hf : found? z req n with
+  | some v => exact ⟨v, rfl⟩
+  | none =>
+    unfold found? at hf
+    split at hf
+    · rw [h] at hf; cases hf
+    · rw [(earliest?_eq_none_iff z n).mp hf] at h; cases h
+
 /-- what the minute loop returns -/
-theorem minuteLoop_spec {z : Zone} (hmax : lastLocal z + nsPerMin ≤ instMax) :
-    ∀ n, n ≤ instMax → ∃ m u, minuteLoop z n = .ok (m, u) ∧ latest? z m = some u ∧ n ≤ m ∧
+theorem minuteLoop_spec {z : Zone} (hmax : lastLocal z + nsPerMin ≤ instMax) (req : Int) :
+    ∀ n, n ≤ instMax → ∃ m u, minuteLoop z req n = .ok (m, u) ∧ found? z req m = some u ∧ n ≤ m ∧
       (m - n) % nsPerMin = 0 ∧ (m = n ∨ (latest? z n = none ∧ m < lastLocal z + nsPerMin)) := by
-  apply datetime_induct z (fun n => n ≤ instMax → ∃ m u, minuteLoop z n = .ok (m, u) ∧ latest? z m = some u ∧
+  apply datetime_induct z (fun n => n ≤ instMax → ∃ m u, minuteLoop z req n = .ok (m, u) ∧ found? z req m = some u ∧
       n ≤ m ∧ (m - n) % nsPerMin = 0 ∧ (m = n ∨ (latest? z n = none ∧ m < lastLocal z + nsPerMin)))
   · intro n u hu _
-    exact ⟨n, u, minuteLoop_of_some hu, hu, by omega, by simp, Or.inl rfl⟩
+    obtain ⟨v, hv⟩ := found?_some_of_latest req hu
+    exact ⟨n, v, minuteLoop_of_some hv, hv, by omega, by simp, Or.inl rfl⟩
   · intro n hn hlt ih _
     rw [minuteLoop_of_none hn, if_neg (by omega)]
     obtain ⟨m, u, h1, h2, h3, h4, h5⟩ := ih (by omega)
@@ -653,30 +903,34 @@ theorem minuteLoop_spec {z : Zone} (hmax : lastLocal z + nsPerMin ≤ instMax) :
     · omega
     · exact h.2
 
-/-- what `datetime` returns, in general: the latest instant of an existing local time `m'` that is
-`n` itself or lies after the non-existent `n`, below `lastLocal z + 1 min`.  In particular neither
+/-- what `datetime` returns, in general: an instant of an existing local time `m'` that is `n`
+itself or lies after the non-existent `n`, below `lastLocal z + 1 min`.  In particular neither
 `expect("no valid datetime for time zone")` nor the subtraction of the walk back panics for a
 representable `n` when the table ends a minute before `NaiveDateTime::MAX`. -/
 theorem datetime_spec {z : Zone} (hmax : lastLocal z + nsPerMin ≤ instMax) {n : Int}
     (hmin : instMin ≤ n) (hle : n ≤ instMax) :
-    ∃ m' u, datetime z n = .ok u ∧ latest? z m' = some u ∧
+    ∃ m' u, datetime z n = .ok u ∧ u ∈ fromLocal z m' ∧
       (m' = n ∨ (latest? z n = none ∧ n < m' ∧ m' < lastLocal z + nsPerMin)) := by
-  obtain ⟨m, u0, h1, h2, h3, h4, h5⟩ := minuteLoop_spec hmax n hle
+  obtain ⟨m, u0, h1, h2, h3, h4, h5⟩ := minuteLoop_spec hmax n n hle
   unfold datetime
   rw [h1]
   simp only
-  obtain ⟨m', u', w1, w2, w3, w4, _, _, _⟩ :=
-    walkBack_spec hmin m u0 (by simp only [nsPerSec, nsPerMin] at *; omega) h2
-  refine ⟨m', u', w1, w2, ?_⟩
-  rcases h5 with h | h
-  · left; omega
-  · by_cases hmn : m' = n
-    · exact Or.inl hmn
-    · right
-      refine ⟨h.1, ?_, by omega⟩
-      rcases w4 with e | e
-      · omega
-      · omega
+  by_cases hmn : m = n
+  · subst hmn
+    exact ⟨m, u0, walkBack_self z m u0, found?_mem h2, Or.inl rfl⟩
+  · rw [found?_of_ne hmn] at h2
+    obtain ⟨m', u', w1, w2, w3, w4, _, _, _⟩ :=
+      walkBack_spec hmin m u0 (by simp only [nsPerSec, nsPerMin] at *; omega) h2
+    refine ⟨m', u', w1, List.mem_of_head? w2, ?_⟩
+    rcases h5 with h | h
+    · exact absurd h hmn
+    · by_cases hmn' : m' = n
+      · exact Or.inl hmn'
+      · right
+        refine ⟨h.1, ?_, by omega⟩
+        rcases w4 with e | e
+        · omega
+        · omega
 
 theorem datetime_no_panic {z : Zone} (hmax : lastLocal z + nsPerMin ≤ instMax) :
     ∀ n, instMin ≤ n → n ≤ instMax → ∃ u, datetime z n = .ok u := by
@@ -689,25 +943,27 @@ theorem datetime_naive_bound {z : Zone} (hs : sorted z = true) (hmax : lastLocal
     {n u : Int} (hmin : instMin ≤ n) (hle : n ≤ instMax) (h : datetime z n = .ok u) :
       naive z u = n ∨ (n < naive z u ∧ naive z u < lastLocal z + nsPerMin) := by
   obtain ⟨m', u', h1, h2, h3⟩ := datetime_spec hmax hmin hle
+  have := (mem_fromLocal hs m' u').mp h2
   rw [h1] at h
   cases h
-  have := (latest_spec hs h2).1
   rcases h3 with e | e
   · left; omega
   · right; omega
 
 /-- what `datetime` returns: the latest instant of `n` when `n` exists, otherwise the instant
 `T + (n - b) mod 1 s` just after the forward jump `T` that skips `n` -/
-theorem datetime_cases {z : Zone} (hs : sorted z = true) (hp : spaced z = true)
+theorem datetime_cases {z : Zone} (hs : sorted z = true) (hp : spansOrdered z = true)
     (hmax : lastLocal z + nsPerMin ≤ instMax) {n : Int} (hmin : instMin ≤ n) :
     (∃ u, latest? z n = some u ∧ datetime z n = .ok u) ∨
     (latest? z n = none ∧ ∃ T a b, gapOf z n = some (T, a, b) ∧ a ≤ n ∧ n < b ∧
       (∀ m, n ≤ m → m < b → latest? z m = none) ∧
-      (∀ r, 0 ≤ r → r < nsPerMin → latest? z (b + r) = some (T + r)) ∧
+      (∀ r, 0 ≤ r → r < nsPerMin → earliest? z (b + r) = some (T + r)) ∧
       datetime z n = .ok (T + (n - b) % nsPerSec)) := by
   cases hl : latest? z n with
   | some u => exact Or.inl ⟨u, rfl, datetime_of_some hl⟩
-  | none => exact Or.inr ⟨rfl, datetime_gap_core hs hp hl hmax hmin⟩
+  | none =>
+    obtain ⟨T, a, b, g1, g2, g3, g4, g5, _, g7⟩ := datetime_gap_core hs hp hl hmax hmin
+    exact Or.inr ⟨rfl, T, a, b, g1, g2, g3, g4, g5, g7⟩
 
 /-- a forward jump of a whole-second table lands on a whole second -/
 theorem gap_end_seconds {p : Int} {l : List (Int × Int)} {n T a b : Int}
@@ -726,8 +982,25 @@ theorem gap_end_seconds {p : Int} {l : List (Int × Int)} {n T a b : Int}
 
 theorem secLt : nsPerSec < nsPerMin := by simp [nsPerSec, nsPerMin]
 
+/-- the result for a skipped local time is not before any instant that shows an earlier-or-equal
+time … -/
+theorem valid_le_gap {z : Zone} (hs : sorted z = true) (hp : spansOrdered z = true) {m n T a b v : Int}
+    (hg : gapOf z n = some (T, a, b)) (hb : n < b) (hmn : m ≤ n) (hv : naive z v = m) : v < T := by
+  apply Int.not_le.mp
+  intro hc
+  have := gap_above hs hp hg hc
+  omega
+
+/-- … and not after any instant that shows a time at/after the skipped one -/
+theorem gap_le_valid {z : Zone} (hs : sorted z = true) (hp : spansOrdered z = true) {m n T a b v : Int}
+    (hg : gapOf z n = some (T, a, b)) (ha : a ≤ n) (hmn : n ≤ m) (hv : naive z v = m) : T ≤ v := by
+  apply Int.not_lt.mp
+  intro hc
+  have := gap_below hs hp hg hc
+  omega
+
 /-- monotonicity, first form: `a` exists, or is a whole second in a whole-second table -/
-theorem datetime_mono_aligned {z : Zone} (hs : sorted z = true) (hp : spaced z = true)
+theorem datetime_mono_aligned {z : Zone} (hs : sorted z = true) (hp : spansOrdered z = true)
     (hal : secondsAligned z = true) (hmax : lastLocal z + nsPerMin ≤ instMax) {a b ua ub : Int}
     (hmin : instMin ≤ a) (hab : a ≤ b) (ha : a % nsPerSec = 0 ∨ latest? z a ≠ none)
     (hua : datetime z a = .ok ua) (hub : datetime z b = .ok ub) : ua ≤ ub := by
@@ -740,8 +1013,8 @@ theorem datetime_mono_aligned {z : Zone} (hs : sorted z = true) (hp : spaced z =
       exact latest_mono hs hp hab hla hlb
     · rw [k6] at hub; cases hub
       have h0 := emod_sec_nonneg (b - b2)
-      have h1 := emod_sec_lt (b - b2)
-      exact latest_mono hs hp (by omega) hla (k5 _ h0 (by omega))
+      have := valid_le_gap hs hp k1 k3 hab (latest_spec hs hla).1
+      omega
   · rw [g6] at hua; cases hua
     have haa : a % nsPerSec = 0 := by
       rcases ha with h | h
@@ -753,27 +1026,18 @@ theorem datetime_mono_aligned {z : Zone} (hs : sorted z = true) (hp : spaced z =
       simp only [List.all_eq_true, decide_eq_true_eq] at hal
       exact hal
     have hr : (a - b') % nsPerSec = 0 := by simp only [nsPerSec] at *; omega
-    rw [hr]
-    have g50 := g5 0 (by omega) (by simp [nsPerMin])
+    rw [hr, Int.add_zero]
     rcases datetime_cases hs hp hmax hminb with ⟨u', hlb, hdb⟩ | ⟨hlb, T2, a2, b2, k1, k2, k3, k4, k5, k6⟩
     · rw [hdb] at hub; cases hub
-      have hbb : b' ≤ b := by
-        apply Int.not_lt.mp
-        intro hc
-        rw [g4 b hab hc] at hlb; cases hlb
-      exact latest_mono hs hp (by omega) g50 hlb
+      exact gap_le_valid hs hp g1 g2 hab (latest_spec hs hlb).1
     · rw [k6] at hub; cases hub
       have h0 := emod_sec_nonneg (b - b2)
       have h1 := emod_sec_lt (b - b2)
       have k50 := k5 _ h0 (by omega)
-      have hle : b' + 0 ≤ b2 + (b - b2) % nsPerSec := by
-        apply Int.not_lt.mp
-        intro hc
-        rw [g4 _ (by omega) (by omega)] at k50; cases k50
-      exact latest_mono hs hp hle g50 k50
+      exact gap_le_valid hs hp g1 g2 (m := b2 + (b - b2) % nsPerSec) (by omega) (earliest_spec hs k50).1
 
 /-- monotonicity, second form: `a` and `b` have the same phase within the second (any table) -/
-theorem datetime_mono_congr {z : Zone} (hs : sorted z = true) (hp : spaced z = true)
+theorem datetime_mono_congr {z : Zone} (hs : sorted z = true) (hp : spansOrdered z = true)
     (hmax : lastLocal z + nsPerMin ≤ instMax) {a b ua ub : Int} (hmin : instMin ≤ a)
     (hab : a ≤ b) (hc : (b - a) % nsPerSec = 0)
     (hua : datetime z a = .ok ua) (hub : datetime z b = .ok ub) : ua ≤ ub := by
@@ -786,8 +1050,8 @@ theorem datetime_mono_congr {z : Zone} (hs : sorted z = true) (hp : spaced z = t
       exact latest_mono hs hp hab hla hlb
     · rw [k6] at hub; cases hub
       have h0 := emod_sec_nonneg (b - b2)
-      have h1 := emod_sec_lt (b - b2)
-      exact latest_mono hs hp (by omega) hla (k5 _ h0 (by omega))
+      have := valid_le_gap hs hp k1 k3 hab (latest_spec hs hla).1
+      omega
   · rw [g6] at hua; cases hua
     have h1 := emod_sec_nonneg (a - b')
     have h2 := emod_sec_lt (a - b')
@@ -795,7 +1059,7 @@ theorem datetime_mono_congr {z : Zone} (hs : sorted z = true) (hp : spaced z = t
     by_cases hbb : b < b'
     · -- `b` is skipped by the same jump: same landing time, same phase, same result
       have hlb : latest? z b = none := g4 b hab hbb
-      obtain ⟨T2, a2, b2, k1, k2, k3, k4, k5, k6⟩ := datetime_gap_core hs hp hlb hmax hminb
+      obtain ⟨T2, a2, b2, k1, k2, k3, k4, k5, _, k6⟩ := datetime_gap_core hs hp hlb hmax hminb
       rw [k6] at hub; cases hub
       have h3 := emod_sec_nonneg (b - b2)
       have h4 := emod_sec_lt (b - b2)
@@ -803,12 +1067,12 @@ theorem datetime_mono_congr {z : Zone} (hs : sorted z = true) (hp : spaced z = t
         apply Int.not_lt.mp
         intro hc'
         have hv := g5 0 (by omega) (by simp [nsPerMin])
-        rw [k4 (b' + 0) (by omega) (by omega)] at hv; cases hv
+        rw [(earliest?_eq_none_iff z _).mpr (k4 (b' + 0) (by omega) (by omega))] at hv; cases hv
       have e2 : b' ≤ b2 := by
         apply Int.not_lt.mp
         intro hc'
         have hv := k5 0 (by omega) (by simp [nsPerMin])
-        rw [g4 (b2 + 0) (by omega) (by omega)] at hv; cases hv
+        rw [(earliest?_eq_none_iff z _).mpr (g4 (b2 + 0) (by omega) (by omega))] at hv; cases hv
       have e3 : b2 = b' := by omega
       subst e3
       have e4 : (b - b2) % nsPerSec = (a - b2) % nsPerSec := by
@@ -822,11 +1086,23 @@ theorem datetime_mono_congr {z : Zone} (hs : sorted z = true) (hp : spaced z = t
       have hstep : b' + (a - b') % nsPerSec ≤ b := by simp only [nsPerSec] at *; omega
       rcases datetime_cases hs hp hmax hminb with ⟨u', hlb, hdb⟩ | ⟨hlb, T2, a2, b2, k1, k2, k3, k4, k5, k6⟩
       · rw [hdb] at hub; cases hub
-        exact latest_mono hs hp hstep g5a hlb
+        exact earliest_le_latest hs hp hstep g5a hlb
       · rw [k6] at hub; cases hub
         have h0 := emod_sec_nonneg (b - b2)
         have h3 := emod_sec_lt (b - b2)
-        exact latest_mono hs hp (by omega) g5a (k5 _ h0 (by omega))
+        have k5b := k5 _ h0 (by omega)
+        -- the instant returned for `b` is at/after `T` and shows a time after `b' + phase`: it cannot
+        -- lie in the first second after `T`, where the clock shows `b' + x`
+        have hT : T ≤ T2 + (b - b2) % nsPerSec :=
+          gap_le_valid hs hp g1 g2 (m := b2 + (b - b2) % nsPerSec) (by omega) (earliest_spec hs k5b).1
+        apply Int.not_lt.mp
+        intro hcon
+        have hx0 : 0 ≤ T2 + (b - b2) % nsPerSec - T := by omega
+        have hx1 : T2 + (b - b2) % nsPerSec - T < nsPerMin := by omega
+        have hv := (earliest_spec hs (g5 _ hx0 hx1)).1
+        have e : T + (T2 + (b - b2) % nsPerSec - T) = T2 + (b - b2) % nsPerSec := by omega
+        rw [e, (earliest_spec hs k5b).1] at hv
+        omega
 
 /-! ### the iterator's bounds and the localized API -/
 
@@ -1162,7 +1438,7 @@ theorem nextChangeTzG_some {env : Env} {z : Zone} {t c : Int} (hs : sorted z = t
 
 /-- a gap found after `(t, o)` lies at/after the end of the span that starts at `t` -/
 theorem gap_ge_end {p t o : Int} {l : List (Int × Int)} (hs : sortedFrom t l = true)
-    (hp : spacedFrom p t o l = true) {n : Int} {g : Int × Int × Int} (hg : gapOfFrom o l n = some g) :
+    (hp : orderedFrom p t o l = true) {n : Int} {g : Int × Int × Int} (hg : gapOfFrom o l n = some g) :
     ∃ t' o' rest, l = (t', o') :: rest ∧ t' + offNs o ≤ n := by
   induction l generalizing p t o with
   | nil => cases hg
@@ -1170,18 +1446,17 @@ theorem gap_ge_end {p t o : Int} {l : List (Int × Int)} (hs : sortedFrom t l = 
     obtain ⟨t', o'⟩ := hd
     refine ⟨t', o', rest, rfl, ?_⟩
     obtain ⟨h1, h2⟩ := sortedFrom_cons.mp hs
-    obtain ⟨h3, h4⟩ := spacedFrom_cons.mp hp
+    obtain ⟨h3, h4⟩ := orderedFrom_cons.mp hp
     simp only [gapOfFrom] at hg
     split at hg
     · rename_i hc; exact hc.1
     · obtain ⟨t'', o'', rest', hr, hge⟩ := ih h2 h4 hg
       subst hr
-      obtain ⟨h5, _⟩ := spacedFrom_cons.mp h4
-      simp only [offNs, nsPerMin] at *
+      obtain ⟨h5, _⟩ := orderedFrom_cons.mp h4
       omega
 
 theorem gapOfFrom_some_nil {p t o : Int} {l : List (Int × Int)} (hs : sortedFrom t l = true)
-    (hp : spacedFrom p t o l = true) {n : Int} {g : Int × Int × Int} (hg : gapOfFrom o l n = some g) :
+    (hp : orderedFrom p t o l = true) {n : Int} {g : Int × Int × Int} (hg : gapOfFrom o l n = some g) :
     fromLocalFrom t o l n = [] := by
   induction l generalizing p t o with
   | nil => cases hg
@@ -1190,7 +1465,7 @@ theorem gapOfFrom_some_nil {p t o : Int} {l : List (Int × Int)} (hs : sortedFro
     obtain ⟨_, _, _, hl, hge⟩ := gap_ge_end hs hp hg
     cases hl
     obtain ⟨h1, h2⟩ := sortedFrom_cons.mp hs
-    obtain ⟨h3, h4⟩ := spacedFrom_cons.mp hp
+    obtain ⟨h3, h4⟩ := orderedFrom_cons.mp hp
     simp only [fromLocalFrom]
     rw [if_neg (by omega), List.nil_append]
     simp only [gapOfFrom] at hg
@@ -1200,54 +1475,57 @@ theorem gapOfFrom_some_nil {p t o : Int} {l : List (Int × Int)} (hs : sortedFro
     · exact ih h2 h4 hg
 
 /-- the class predicate is exact: `gapOf z n` finds a forward jump iff `n` does not exist -/
-theorem gapOf_isSome_iff {z : Zone} (hs : sorted z = true) (hp : spaced z = true) (n : Int) :
+theorem gapOf_isSome_iff {z : Zone} (hs : sorted z = true) (hp : spansOrdered z = true) (n : Int) :
     (gapOf z n).isSome = true ↔ latest? z n = none := by
   constructor
   · intro h
     obtain ⟨g, hg⟩ := Option.isSome_iff_exists.mp h
     unfold latest?
     rw [fromLocal_eq_from z n _ (virt_le z n),
-      gapOfFrom_some_nil (virt_sorted z n hs) (virt_spaced z n hp) (gapOf_eq z n ▸ hg)]
+      gapOfFrom_some_nil (virt_sorted z n hs) (virt_ordered z n hp) (gapOf_eq z n ▸ hg)]
     rfl
   · intro h
     obtain ⟨T, a, b, g1, _⟩ := gap_of_none hs hp h
     rw [g1]; rfl
 
 /-- D16 as a class: both bounds of a local span inside a gap (with the same phase within the
-second) are mapped to the same instant -/
+second) are mapped to the same instant.  A SPACED table is needed when the span ends exactly where
+the jump lands (`b = g`): if a fold follows the gap directly, `g` is ambiguous and the end is mapped
+to its later instant. -/
 theorem datetime_eq_of_localSpanInGap {z : Zone} (hs : sorted z = true) (hp : spaced z = true)
     (hmax : lastLocal z + nsPerMin ≤ instMax)
     {a b : Int} (hg : localSpanInGap z a b = true) (hc : (b - a) % nsPerSec = 0) (hmin : instMin ≤ a) :
     datetime z a = datetime z b := by
+  have ho := spansOrdered_of_spaced hp
   unfold localSpanInGap at hg
   split at hg
   · rename_i T a' g hgap
     simp only [decide_eq_true_eq] at hg
-    have hnone : latest? z a = none := (gapOf_isSome_iff hs hp a).mp (by rw [hgap]; rfl)
-    obtain ⟨T1, a1, b1, g1, g2, g3, g4, g5, g6⟩ := datetime_gap_core hs hp hnone hmax hmin
+    have hnone : latest? z a = none := (gapOf_isSome_iff hs ho a).mp (by rw [hgap]; rfl)
+    obtain ⟨T1, a1, b1, g1, g2, g3, g4, g5, g5', g6⟩ := datetime_gap_core hs ho hnone hmax hmin
     rw [hgap] at g1
     cases g1
     rw [g6]
     by_cases hbg : b = g
     · -- the span ends exactly where the jump lands
-      have h0 := g5 0 (by omega) (by simp [nsPerMin])
+      have h0 := latest?_of_singleton (g5' hp 0 (by omega) (by simp [nsPerMin]))
       rw [hbg]
       simp only [Int.add_zero] at h0
       rw [datetime_of_some h0]
       have : (a - g) % nsPerSec = 0 := by simp only [nsPerSec] at *; omega
       rw [this, Int.add_zero]
     · have hnb : latest? z b = none := g4 b (by omega) (by omega)
-      obtain ⟨T2, a2, b2, k1, k2, k3, k4, k5, k6⟩ := datetime_gap_core hs hp hnb hmax (by omega)
+      obtain ⟨T2, a2, b2, k1, k2, k3, k4, k5, _, k6⟩ := datetime_gap_core hs ho hnb hmax (by omega)
       have e1 : b2 ≤ g := by
         apply Int.not_lt.mp
         intro hc'
         have hv := g5 0 (by omega) (by simp [nsPerMin])
-        rw [k4 (g + 0) (by omega) (by omega)] at hv; cases hv
+        rw [(earliest?_eq_none_iff z _).mpr (k4 (g + 0) (by omega) (by omega))] at hv; cases hv
       have e2 : g ≤ b2 := by
         apply Int.not_lt.mp
         intro hc'
         have hv := k5 0 (by omega) (by simp [nsPerMin])
-        rw [g4 (b2 + 0) (by omega) (by omega)] at hv; cases hv
+        rw [(earliest?_eq_none_iff z _).mpr (g4 (b2 + 0) (by omega) (by omega))] at hv; cases hv
       have e3 : b2 = g := by omega
       subst e3
       have hT := k5 0 (by omega) (by simp [nsPerMin])
@@ -1350,7 +1628,7 @@ theorem fromLocalFrom_length_le_two {p t o : Int} {l : List (Int × Int)} (hs : 
         obtain ⟨h5, h6⟩ := sortedFrom_cons.mp h2
         obtain ⟨h7, h8⟩ := spacedFrom_cons.mp h4
         have hn : fromLocalFrom t'' o'' rest2 n = [] := by
-          apply none_before h6 h8
+          apply none_before h6 (ordered_of_spacedFrom h8)
           simp only [offNs, nsPerMin] at *
           omega
         simp only [fromLocalFrom, hn, List.append_nil, List.length_cons, List.length_nil]
@@ -1378,11 +1656,11 @@ theorem gap_size {p : Int} {l : List (Int × Int)} {n T a b : Int}
     · exact ih hg ho (fun q hq => hl q (List.mem_cons_of_mem _ hq))
 
 /-- the loop makes at most 2·1440 steps (a gap is shorter than two days) -/
-theorem datetime_steps_le {z : Zone} (hs : sorted z = true) (hp : spaced z = true)
+theorem datetime_steps_le {z : Zone} (hs : sorted z = true) (hp : spansOrdered z = true)
     (hb : offsetsBounded z = true) {n : Int} (he : latest? z n = none) :
     ∃ k : Nat, k ≤ 2880 ∧ (∀ j : Nat, j < k → latest? z (n + j * nsPerMin) = none) ∧
       latest? z (n + k * nsPerMin) ≠ none := by
-  obtain ⟨T, a, b, g1, g2, g3, g4, g5, g6⟩ := gap_of_none hs hp he
+  obtain ⟨T, a, b, g1, g2, g3, g4, g5, g6, _⟩ := gap_of_none hs hp he
   have hsize : b - a < 2 * nsPerDay := by
     unfold offsetsBounded at hb
     simp only [Bool.and_eq_true, decide_eq_true_eq, List.all_eq_true] at hb
@@ -1401,8 +1679,9 @@ theorem datetime_steps_le {z : Zone} (hs : sorted z = true) (hp : spaced z = tru
       · simp only [nsPerMin] at *; omega
       · simp only [nsPerMin] at *; omega
     rw [e]
-    unfold latest?
-    rw [g6 _ hr0 hr1]
-    simp
+    intro hcon
+    have hv := g6 _ hr0 hr1
+    rw [(earliest?_eq_none_iff z _).mpr hcon] at hv
+    cases hv
 
 end OH.Proofs.Tz
